@@ -423,6 +423,9 @@ class SymExec:
             d = ("discr", args[0])
             kd = self.known_discr(d)
             return [((), ("c", "isize", kd) if kd is not None else d, False)]
+        if cal.startswith("<std::option::Option<T> as std::ops::FromResidual") and cal.endswith("::from_residual"):
+            # `expr?` on an Option in a function returning Option: the early return value is None
+            return [((), ("adt", "std::option::Option::None", ()), False)]
         if cal.endswith(("::eq", "::ne")) and len(args) == 2 and self.structural_eq_ok(cal):
             alts = self.eq_alts(strip_transparent(args[0]), strip_transparent(args[1]), site)
             if alts is not None:
